@@ -66,9 +66,9 @@ func (fc *FnCtx) errorPtrType() types.Type {
 // errStore is called for every store to the field Error.err of object x.
 func (fc *FnCtx) errStore(x, v *smt.Term, where string) {
 	fc.errDecls()
-	if lit, ok := x.IsIntLit(); ok && lit < 0 && !fc.errInit[x.Op] && !fc.escaped[x.Op] {
+	if k, ok := freshRefKey(x); ok && !fc.errInit[k] && !fc.escaped[k] {
 		// construction of a fresh *Error: its unwrap structure is now defined
-		fc.errInit[x.Op] = true
+		fc.errInit[k] = true
 		t := smt.Const("t!x", smt.Int)
 		is := smt.App("IsErr", smt.Bool, x, t)
 		fc.S.Assert(smt.Forall([]*smt.Term{t}, smt.Eq(is, smt.Or(smt.Eq(t, x), smt.App("IsErr", smt.Bool, v, t))), []*smt.Term{is}), "errors.Is through (*Error).Unwrap, "+where)
